@@ -78,7 +78,7 @@ theorem addSpec_shape : ∀ (order : List (Nat × Nat)) (A B : List HTree) (n : 
 theorem declsOfKids_split (A B : List HTree)
     (hA : ∀ x ∈ A, (x.value.category == Category.namespace) = true)
     (hB : ∀ y, B.head? = some y → (y.value.category == Category.namespace) = false) :
-    declsOfKids (A ++ B) = A.filterMap (fun k => nsPair k.value) := by
+    declsOfKids (A ++ B) = A.filterMap (fun k => fcNsPair k.value) := by
   unfold declsOfKids
   rw [(takeWhile_split _ A B hA hB).1]
 
@@ -86,7 +86,7 @@ theorem declsOfKids_split (A B : List HTree)
 theorem find_key_iff (A : List HTree) (hA : ∀ x ∈ A, (x.value.category == Category.namespace) = true)
     (p : Nat) :
     (A.find? (fun c => Forest.entryKey c.value == p)).isSome = true ↔
-      ∃ b ∈ A.filterMap (fun k => nsPair k.value), b.1 = p := by
+      ∃ b ∈ A.filterMap (fun k => fcNsPair k.value), b.1 = p := by
   rw [List.find?_isSome]
   constructor
   · rintro ⟨x, hx, hk⟩
@@ -110,23 +110,23 @@ theorem find_key_iff (A : List HTree) (hA : ∀ x ∈ A, (x.value.category == Ca
     | node h v ks =>
       cases v with
       | «namespace» q ns =>
-        have : (q, ns) = b := by simpa [HTree.value, nsPair] using hp
+        have : (q, ns) = b := by simpa [HTree.value, fcNsPair] using hp
         subst this
         simp [HTree.value, Forest.entryKey]
-      | document => simp [HTree.value, nsPair] at hp
-      | element e => simp [HTree.value, nsPair] at hp
-      | text t => simp [HTree.value, nsPair] at hp
-      | pi t d => simp [HTree.value, nsPair] at hp
-      | comment t => simp [HTree.value, nsPair] at hp
-      | «attribute» a t => simp [HTree.value, nsPair] at hp
+      | document => simp [HTree.value, fcNsPair] at hp
+      | element e => simp [HTree.value, fcNsPair] at hp
+      | text t => simp [HTree.value, fcNsPair] at hp
+      | pi t d => simp [HTree.value, fcNsPair] at hp
+      | comment t => simp [HTree.value, fcNsPair] at hp
+      | «attribute» a t => simp [HTree.value, fcNsPair] at hp
 
 /-- Every prefix of `order` whose only declarations so far are itself ends up declared. -/
 theorem addSpec_declares : ∀ (order : List (Nat × Nat)) (A B : List HTree) (n : Nat),
     (∀ x ∈ A, (x.value.category == Category.namespace) = true) →
     (∀ y, B.head? = some y → (y.value.category == Category.namespace) = false) →
     (∀ a ∈ order, ∀ b ∈ order, a.1 = b.1 → a = b) →
-    (∀ x ∈ A.filterMap (fun k => nsPair k.value), x ∈ declsOfKids (addSpec (A ++ B) n order).1) ∧
-    ∀ b ∈ order, (∀ x ∈ A.filterMap (fun k => nsPair k.value), x.1 = b.1 → x = b) →
+    (∀ x ∈ A.filterMap (fun k => fcNsPair k.value), x ∈ declsOfKids (addSpec (A ++ B) n order).1) ∧
+    ∀ b ∈ order, (∀ x ∈ A.filterMap (fun k => fcNsPair k.value), x.1 = b.1 → x = b) →
       b ∈ declsOfKids (addSpec (A ++ B) n order).1
   | [], A, B, n, hA, hB, _ => by
     simp only [addSpec]
@@ -157,9 +157,9 @@ theorem addSpec_declares : ∀ (order : List (Nat × Nat)) (A B : List HTree) (n
         · exact hA x h
         · simp at h; subst h; rfl
       obtain ⟨mono, ih⟩ := addSpec_declares rest (A ++ [.node n (.namespace p ns) []]) B (n + 1) hA' hB hfun'
-      have e : (A ++ [HTree.node n (.namespace p ns) []]).filterMap (fun k => nsPair k.value) =
-          A.filterMap (fun k => nsPair k.value) ++ [(p, ns)] := by
-        simp [List.filterMap_append, nsPair, HTree.value]
+      have e : (A ++ [HTree.node n (.namespace p ns) []]).filterMap (fun k => fcNsPair k.value) =
+          A.filterMap (fun k => fcNsPair k.value) ++ [(p, ns)] := by
+        simp [List.filterMap_append, fcNsPair, HTree.value]
       rw [e] at mono ih
       have eK : A ++ [HTree.node n (.namespace p ns) []] ++ B = A ++ [.node n (.namespace p ns) []] ++ B := rfl
       refine ⟨fun x hx => mono x (by simp [hx]), ?_⟩
@@ -180,8 +180,8 @@ theorem addSpec_decls_sub : ∀ (order : List (Nat × Nat)) (A B : List HTree) (
     (∀ x ∈ A, (x.value.category == Category.namespace) = true) →
     (∀ y, B.head? = some y → (y.value.category == Category.namespace) = false) →
     ∀ b ∈ declsOfKids (addSpec (A ++ B) n order).1,
-      b ∈ A.filterMap (fun k => nsPair k.value) ∨
-      (b ∈ order ∧ ∀ x ∈ A.filterMap (fun k => nsPair k.value), x.1 ≠ b.1)
+      b ∈ A.filterMap (fun k => fcNsPair k.value) ∨
+      (b ∈ order ∧ ∀ x ∈ A.filterMap (fun k => fcNsPair k.value), x.1 ≠ b.1)
   | [], A, B, n, hA, hB => by
     intro b hb
     simp only [addSpec] at hb
@@ -204,10 +204,10 @@ theorem addSpec_decls_sub : ∀ (order : List (Nat × Nat)) (A B : List HTree) (
         rcases List.mem_append.mp hx with h | h
         · exact hA x h
         · simp at h; subst h; rfl
-      have e : (A ++ [HTree.node n (.namespace p ns) []]).filterMap (fun k => nsPair k.value) =
-          A.filterMap (fun k => nsPair k.value) ++ [(p, ns)] := by
-        simp [List.filterMap_append, nsPair, HTree.value]
-      have hnokey : ∀ x ∈ A.filterMap (fun k => nsPair k.value), x.1 ≠ p := by
+      have e : (A ++ [HTree.node n (.namespace p ns) []]).filterMap (fun k => fcNsPair k.value) =
+          A.filterMap (fun k => fcNsPair k.value) ++ [(p, ns)] := by
+        simp [List.filterMap_append, fcNsPair, HTree.value]
+      have hnokey : ∀ x ∈ A.filterMap (fun k => fcNsPair k.value), x.1 ≠ p := by
         intro x hx e'
         exact hs ((find_key_iff A hA p).mpr ⟨x, hx, e'⟩)
       rcases addSpec_decls_sub rest (A ++ [.node n (.namespace p ns) []]) B (n + 1) hA' hB b hb with h | ⟨h1, h2⟩
